@@ -118,3 +118,43 @@ pub fn p7_batch_and_snapshot<'a>(
     let out = fa.zip(cnt).all_ticks().sim_output();
     (send_a, send_b, out)
 }
+
+/// P8 (C38 only): a keyed batch observed in a total order per key inside the tick
+/// (`assume_ordering` on an unordered keyed stream = the INLINE KeyedStreamOrderHook); every
+/// tick reports per key the order it observed.  The batch itself is cut by ONE decision (an
+/// ordered batch hook, then the order is forgotten), so one decision byte 0xFF puts all keys
+/// into the same tick.
+pub fn p8_keyed_inline_order<'a>(
+    node: &Process<'a>,
+) -> (
+    SimSender<(i32, i32), TotalOrder, ExactlyOnce>,
+    SimReceiver<(i32, Vec<i32>), NoOrder, ExactlyOnce>,
+) {
+    let tick = node.tick();
+    let (send, input) = node.sim_input::<(i32, i32), TotalOrder, ExactlyOnce>();
+    let out = input
+        .batch(&tick, nondet!(/** verif */))
+        .weaken_ordering::<NoOrder>()
+        .into_keyed()
+        .assume_ordering::<TotalOrder>(nondet!(/** verif */))
+        .fold(q!(|| Vec::new()), q!(|acc: &mut Vec<i32>, v| acc.push(v)))
+        .entries()
+        .all_ticks()
+        .sim_output();
+    (send, out)
+}
+
+/// P9 (C38 only): a batch observed in a total order inside the tick (the INLINE
+/// StreamOrderHook); every tick reports the order it observed.
+pub fn p9_inline_order<'a>(node: &Process<'a>) -> (In<TotalOrder>, Out<Vec<i32>>) {
+    let tick = node.tick();
+    let (send, input) = node.sim_input::<i32, TotalOrder, ExactlyOnce>();
+    let out = input
+        .batch(&tick, nondet!(/** verif */))
+        .weaken_ordering::<NoOrder>()
+        .assume_ordering::<TotalOrder>(nondet!(/** verif */))
+        .fold(q!(|| Vec::new()), q!(|acc: &mut Vec<i32>, v| acc.push(v)))
+        .all_ticks()
+        .sim_output();
+    (send, out)
+}
